@@ -40,6 +40,43 @@ INFO={
 "C16-1":("MSS computed before ESB in scpi_stb","ESB is the only SRE-enabled reported bit"),
 "C16-2":("*RST clears ESR bit 0","*OPC pending (bit 0 set) then *RST"),
 "C16-3":("*TST? propagates a failing self test with '?'","device self test fails"),
+# ---- second wave ("as deeply hidden as you can")
+"C01-4":("next_optional_token after a separator hands out any Ok token (no recursion)","handler pulling a 2nd parameter and ',*X' in the message: non-data token reaches the conversions (panic in debug / -300 in release)"),
+"C01-5":("both 'tokenizer shouldn't emit anything else' arms of Node::exec replaced by parser_unreachable!()","resolvable header immediately followed by a well-formed '(...)' without white space (ROUT:CLOS(@1,2))"),
+"C01-6":("isize::try_from(ChannelSpec) calls count() on the rest of a non-advancing iterator","channel spec whose first number is followed by a dangling sign ((@3-)): Node::run never returns"),
+"C02-4":("child loop skips children whose name is shorter than the received mnemonic","unsuffixed node spelled in full long form with an explicit 1 (SYST:VERSION1?)"),
+"C02-5":("in_common cleared when a plain mnemonic is read instead of at ';'","common-command unit immediately followed by a unit with a leading colon (*COM;:SYST:VERS?)"),
+"C02-6":("level recorded only when the branch itself consumed a ':'","unit ending below an omitted default branch followed by a relative header that exists only one level up (SENS:NPLC;FUNC?) => handler runs instead of -113"),
+"C04-4":("suffix length check done after the scan with 'len as u8'","suffix of 256..268 (512..524, ...) characters accepted"),
+"C04-5":("in_common reset moved from ';' to the mnemonic arm","*CLS;:SYST:VERS? rejected with -103"),
+"C04-6":("#0 block strips CR NL instead of NL","indefinite block whose last payload byte is 0x0D loses it"),
+"C05-4":("message_start() moved in front of the hook block in run()","a formatter whose message_start fails: error returned, hook never called"),
+"C05-5":("ResponseUnit::header overwrites a latched failure","query writing >= 2 header parts, transient failure on the first"),
+"C05-6":("default leaf falls through to the default branch when the handler returns -113","branch with default leaf AND default branch, header stops there, leaf handler fails with exactly -113: second handler runs, error dropped"),
+"C06-4":("#0 block ends at the FIRST NL","indefinite block whose payload contains NL: rest of payload is lexed as further data / units"),
+"C06-5":("',' arm only accepts a 'data start' character after it and forgets '.'","decimal starting with '.' at parameter position >= 2 (TWO 1,.5)"),
+"C06-6":("definite block payload skipped with nth(len.saturating_sub(1))","empty block directly followed by ',' or ';'"),
+"C10-4":("terminator tied to context.mav |= !response.is_empty()","non-query message executed with MAV set (same controller has an unread response): lone NL written"),
+"C10-5":("message_end skips the terminator if the buffer already ends in NL","last datum of the last query is a block/str whose payload ends in 0x0A"),
+"C10-6":("data separator lost between code and message for errors with extended text","an Error carrying extended text written as response data"),
+"C11-4":("ResponseUnit::header assigns the ':' push result unconditionally","compound response header, capacity too small for the first mnemonic but large enough for the rest: overflow swallowed"),
+"C11-5":("ArrayVec formatter skips the terminator when the last byte is NL (Vec formatter unchanged)","block payload ending in NL as last datum: fixed and growable buffers disagree / overflow not reported"),
+"C11-6":("ArrayVec<T,N> list response merges 'first element overflowed' with 'list empty'","ArrayVec list as response data, exhaustion on its first element: -300 instead of -225"),
+"C12-4":("overflow marker written in place keeps the extended text (variant of C12-1)","overflow while the newest entry carries extended text"),
+"C12-5":("Vec queue silently drops pushes of NoError","an error with code 0 pushed on the Vec queue"),
+"C12-6":("overflow branch uses slice pattern [_, .., last]","capacity exactly 1"),
+"C13-4":("message_start/message_end hoisted into run() (variant of C13-3)","bounded formatter failing exactly at the terminator"),
+"C13-5":("*TST? reports a failing self test to handle_error as well","device self test fails: successful message queues an error"),
+"C13-6":("SYST:ERR:ALL? rewritten as 'read until No error'","an error with code 0 queued behind another item: ALL? stops there and leaves the rest"),
+"C14-4":("generated get_error has an early exit with the half-open range -800..0","lookup of code 0"),
+"C14-5":("ArrayVec formatter pushes ';' and NL through a conversion that yields -321","buffer exactly full at a unit boundary / terminator"),
+"C14-6":("infinite float intermediate mapped to -123 Exponent too large","integer parameter written as 1e39 / 1e309"),
+"C15-4":("set_condition_bits returns early when ANY masked bit is already set","set_condition_bits with a multi-bit mask partly overlapping the current condition"),
+"C15-5":("preset() clears the condition through set_condition()","non-zero NTR filter, filtered condition bit 1, STATus:PRESet: event latched by PRESet"),
+"C15-6":("set_condition returns early (without storing) when no changed bit passes a filter","PTR no longer all ones and an update changing only unfiltered bits"),
+"C16-4":("*CLS clears context.mav","*CLS;*STB? in one message with MAV set"),
+"C16-5":("default IEEE4882::stb() derives MSS from ESE instead of SRE","a device that does not override stb() (plain 488.2 wiring), ESB set, ESE bit 5 != SRE bit 5"),
+"C16-6":("float fallback rejects value >= MAX (patch rebased onto the tree after fix d721bc8)","*ESE 255.0 / *SRE 2.55E2 (exactly the maximum in NR2/NR3 spelling)"),
 }
 results={}
 for f in glob.glob(f"{HERE}/seeded/results.*.tsv"):
@@ -52,7 +89,7 @@ for d in sorted(glob.glob(f"{HERE}/seeded/C*-*")):
     for f in sorted(glob.glob(f"{d}/detect.*.txt")):
         tier=os.path.basename(f).split('.')[1]
         txt=open(f).read()
-        m=re.search(r"invariant=(\S+) signature=(.+?) step", txt)
+        m=re.search(r"invariant=(\S+) signature=(.+?)(?: step| tier|\n)", txt)
         det[tier]={"caught": "VIOLATION property=" in txt, "invariant": m.group(1) if m else None, "signature": m.group(2) if m else None}
     what,needs=INFO.get(sid,("",""))
     meta={
@@ -74,7 +111,8 @@ for d in sorted(glob.glob(f"{HERE}/seeded/C*-*")):
     def cell(t):
         x=r.get(t)
         if not x: return "not run"
-        return (x["invariant"]+" / "+x["signature"]) if x["caught"] else "**missed**"
-    rows.append(f"| {m['id']} | {m['breaks_property']} | {m['change']} | {m['needs_to_manifest']} | {cell('quick')} | {cell('thorough')} |")
-open(f"{HERE}/seeded/RESULTS.md","w").write("# Seeded changes and the checks that catch them\n\nGenerated by tools/mkmeta.py from seeded/*/validation.json and seeded/*/detect.*.txt.\n\n| id | property | change | needs to manifest | caught by quick check (invariant / signature) | thorough |\n|---|---|---|---|---|---|\n"+"\n".join(rows)+"\n")
+        return (str(x["invariant"])+" / "+str(x["signature"])) if x["caught"] else "**missed**"
+    first = cell('baseline') if 'baseline' in r else ''
+    rows.append(f"| {m['id']} | {m['breaks_property']} | {m['change']} | {m['needs_to_manifest']} | {first} | {cell('quick')} |")
+open(f"{HERE}/seeded/RESULTS.md","w").write("# Seeded changes and the checks that catch them\n\nGenerated by tools/mkmeta.py from seeded/*/validation.json and seeded/*/detect.*.txt.\n\n| id | property | change | needs to manifest | first run, before strengthening (second wave only) | final quick check (invariant / signature) |\n|---|---|---|---|---|---|\n"+"\n".join(rows)+"\n")
 print("meta written for", len(rows))
